@@ -11,6 +11,7 @@ import (
 	"sort"
 	"strings"
 	"sync"
+	"time"
 
 	"github.com/fullstorydev/grpchan"
 	"github.com/fullstorydev/grpchan/httpgrpc"
@@ -250,6 +251,8 @@ func (s *Sim) setupEnv() {
 			return s.dial(e.ln, "http")
 		}
 		e.tr.DisableCompression = true
+		// only matters for requests that carry "Expect: 100-continue" (raw peer)
+		e.tr.ExpectContinueTimeout = time.Hour
 		u := &url.URL{Scheme: scheme, Host: "sim.test", Path: base}
 		var rt http.RoundTripper = e.tr
 		switch cfg.ProxyMode {
